@@ -605,6 +605,9 @@ class Interp:
         if isinstance(obj, SStr):
             from .lib import strings
             return strings.sstr_method(obj, name)
+        if isinstance(obj, SVal) and obj.z.sort() == core.GeomSort and name in ('wkt', 'wkb', 'geom_type'):
+            from .lib.strings import OpaqueStr
+            return OpaqueStr(f'<{name}>')
         if isinstance(obj, type) and issubclass(obj, BaseException) and name == '__name__':
             return obj.__name__
         # python objects: models, real modules, builtin containers
@@ -1411,6 +1414,8 @@ class Interp:
         it = self.eval(g.iter, env)
         if not hasattr(it, '_lazy_map'):
             return ('concrete', it)
+        if hasattr(it, '_concrete_len') and it._concrete_len():
+            return ('concrete', it)          # concrete length: ordinary (eager) iteration
         interp = self
         # Elements are evaluated on demand (at Skolem indexes), i.e. later than Python would: freeze the bindings the
         # element expression can see, so a later rebinding of a name (arr = fromiter(...)) is not observed.
